@@ -71,3 +71,13 @@ Theorem C19_exit_only_when_idle : forall fuel w p w' p',
   p = PIdle /\ b_ringing (w_bot w) = false /\ server_mode w' = true
   /\ Qltb (qadd (b_last_activity (w_bot w')) INACTIVITY) (w_now w') = true.
 Proof. exact exit_only_when_idle. Qed.
+
+From Wh Require Import Parse Glue GlueP.
+From Coq Require Import ZArith QArith.
+
+(* the configuration server mode runs under *)
+Theorem C19_server_configuration : forall id,
+  server_cfg id = {| bc_udi := true; bc_sar := true; bc_calls := true; bc_wait := true;
+                     bc_name := Some uWheatley; bc_instance := id; bc_peal := 180%Z; bc_inertia := 1%Q;
+                     bc_initial_inertia := 0%Q; bc_gap := 1%Q; bc_max := 15; bc_min := 4 |}.
+Proof. exact server_configuration. Qed.
